@@ -87,7 +87,7 @@ class ErrorRate(ClassificationMoment):
             # in the subtraction in the 'error =' line generating an
             # (n,n) array
             pred = np.squeeze(pred)
-        signed_errors = self.tags[_LABEL] - pred
+        signed_errors = self.tags[_LABEL].astype(np.float64) - pred
         total_fn_cost = np.sum(signed_errors[signed_errors > 0] * self.fn_cost)
         total_fp_cost = np.sum(-signed_errors[signed_errors < 0] * self.fp_cost)
         error_value = (total_fn_cost + total_fp_cost) / self.total_samples
@@ -101,7 +101,9 @@ class ErrorRate(ClassificationMoment):
 
     def signed_weights(self, lambda_vec: pd.Series | None = None) -> pd.Series:
         """Return the signed weights."""
-        weights = -self.fp_cost + (self.fp_cost + self.fn_cost) * self.tags[_LABEL]
+        weights = -self.fp_cost + (self.fp_cost + self.fn_cost) * self.tags[_LABEL].astype(
+            np.float64
+        )
         if lambda_vec is None:
             return weights
         else:
